@@ -9,6 +9,7 @@
 -/
 import GoBT.Tx.WireLemmas
 import GoBT.Script.WriteReviewLib
+import GoBT.Script.Build
 namespace GoBT.C01
 open GoBT
 
@@ -352,5 +353,31 @@ example : sampleTx.wf ∧ ¬ sampleTx.ambiguous :=
     slice it was handed — a previous-output script, a caller's hash, a destination's old buffer — adds a row with a
     `param:` / `field:` / `deref:` origin and breaks this obligation. -/
 theorem lib_writes_only_fresh_buffers : GoBT.Script.WriteReviewLib.writesOkFor "C01" = true := by decide +kernel
+
+/-! ### Tx.BytesWithClearedInputs (the serialisation variant of toBytesHelper with a locking script) -/
+
+/-- Input.Bytes(true) is the serialisation of the input with an empty unlocking script -/
+theorem serInputCleared_eq (i : Input) : serInputCleared i = serInput { i with unlocking := some [] } := by
+  simp [serInputCleared, serInput, serOptScript, varintEnc_zero]
+
+private theorem serInputsCleared_oob (ls : Bytes) (is : List Input) :
+    ∀ k idx, k + is.length ≤ idx →
+      serInputsCleared ls k idx is = serInputs false (is.map fun i => { i with unlocking := some [] }) := by
+  induction is with
+  | nil => intro k idx _; simp [serInputsCleared, serInputs]
+  | cons i is ih =>
+    intro k idx h
+    have hk : k ≠ idx := by simp at h; omega
+    have := ih (k + 1) idx (by simp at h; omega)
+    simp [serInputsCleared, hk, this, serInputs, serInputF, serInputCleared_eq]
+
+/-- **Tx.BytesWithClearedInputs**: with no script it is `Tx.Bytes`; with a script and an index beyond the inputs it is
+    the standard serialisation of the transaction with every unlocking script emptied. -/
+theorem cleared_nil_is_bytes (idx : Nat) (tx : Tx) : bytesWithClearedInputs idx none tx = serialize false tx := rfl
+
+theorem cleared_out_of_range (idx : Nat) (ls : Bytes) (tx : Tx) (h : tx.inputs.length ≤ idx) :
+    bytesWithClearedInputs idx (some ls) tx =
+      serialize false { tx with inputs := tx.inputs.map fun i => { i with unlocking := some [] } } := by
+  simp [bytesWithClearedInputs, serialize, serInputsCleared_oob ls tx.inputs 0 idx (by omega)]
 
 end GoBT.C01
